@@ -122,6 +122,70 @@ func (c *Ctx) alwaysBefore(fn *ssa.Function, a, b ssa.Instruction) bool {
 	return ok && !und
 }
 
+// prefixTest is a test "subject starts with prefix": strings.HasPrefix(subject,
+// prefix) or its expansion subject[:len(prefix)] == prefix.
+type prefixTest struct {
+	site            ssa.Instruction
+	subject, prefix ssa.Value
+	name            string // construct name
+}
+
+func (c *Ctx) prefixTests(fn *ssa.Function) []prefixTest {
+	var out []prefixTest
+	manual := 0
+	x := c.explorer(fn)
+	eng.Instrs(fn, func(in ssa.Instruction) {
+		switch v := in.(type) {
+		case *ssa.Call:
+			if c.P.CalleeName(v) == "strings.HasPrefix" && len(v.Call.Args) == 2 {
+				out = append(out, prefixTest{site: v, subject: v.Call.Args[0], prefix: v.Call.Args[1], name: c.siteName(v)})
+			}
+		case *ssa.BinOp:
+			if v.Op != token.EQL && v.Op != token.NEQ {
+				return
+			}
+			for _, o := range [][2]ssa.Value{{v.X, v.Y}, {v.Y, v.X}} {
+				sl, ok := o[0].(*ssa.Slice)
+				if !ok || eng.SliceLow(sl) != nil || sl.High == nil {
+					continue
+				}
+				lc, ok := sl.High.(*ssa.Call)
+				if !ok || c.P.CalleeName(lc) != "builtin:len" || len(lc.Call.Args) != 1 {
+					continue
+				}
+				// a[:len(b)] == b
+				if eng.SameValue(lc.Call.Args[0], o[1]) || x.StructKeyAtEntry(lc.Call.Args[0]) == x.StructKeyAtEntry(o[1]) {
+					manual++
+					out = append(out, prefixTest{site: v, subject: sl.X, prefix: o[1], name: fmt.Sprintf("%s/prefix-comparison#%d", c.name(c.owner(v)), manual)})
+					return
+				}
+			}
+		}
+	})
+	return out
+}
+
+// ReachAfter: is an instruction satisfying isT reachable after `from` has executed?
+func (c *Ctx) ReachAfter(fn *ssa.Function, from ssa.Instruction, isT func(ssa.Instruction) bool) (*eng.Hit, bool) {
+	x := c.explorer(fn)
+	x.From = from
+	x.Target = func(in ssa.Instruction, st *eng.State) bool {
+		if _, isV := in.(ssa.Value); !isV {
+			return false
+		}
+		return isT(in)
+	}
+	x.StopAtTarget = true
+	hits := x.Run()
+	if x.Exhausted {
+		return nil, true
+	}
+	if len(hits) > 0 {
+		return &hits[0], false
+	}
+	return nil, false
+}
+
 // onlyIn: instruction in lies in one of the named functions, or in a helper
 // that is only called from them.
 func (c *Ctx) onlyIn(in ssa.Instruction, names ...string) bool {
